@@ -126,6 +126,11 @@ func Shrink(p *Program, budget int, fails func(*Program) bool) *Program {
 				c.WGDep = false
 				cands = append(cands, c)
 			}
+			if o.Kind == "load" && o.Sub != "" {
+				c := o
+				c.Sub, c.Imm = "", 0
+				cands = append(cands, c)
+			}
 			if o.Kind == "load" && o.N > 1 {
 				c := o
 				c.N, c.Imm = 0, 0
